@@ -19,6 +19,7 @@ func init() {
 	streams["hist"] = streamHist
 	streams["schema"] = streamSchema
 	streams["fault"] = streamFault
+	streams["crash"] = streamCrash
 }
 
 // scriptedWriter: every Write pops one scripted result (then succeeds forever).
@@ -246,6 +247,12 @@ func cmdHist(o *Out, line string, f []string) {
 			if err == nil {
 				obs = append(obs, "o")
 				accepted = append(accepted, proj(raw))
+				// durability bound (C09): k accepted samples, chunk size N => at least N*floor((k-1)/N) in the writer
+				if isStreaming(ctor) && !explicitSplit && len(script) == 0 && n >= 1 {
+					if k := len(accepted); inWriter() < n*((k-1)/n) {
+						bad("fewer samples are durable than the chunk size guarantees", map[string]int{"accepted": k, "inWriter": inWriter(), "N": n})
+					}
+				}
 			} else {
 				obs = append(obs, "e")
 				// a rejected Add changes nothing: the log (writer + pending) and the pending count modulo a flush
@@ -629,4 +636,55 @@ func streamFault(o *Out, rng *rand.Rand, thorough bool, _ []string) {
 			}
 		}
 	}
+}
+
+// C09 crash points: every byte offset of what streaming collectors wrote (up to ~4 KiB) is a crash point
+func streamCrash(o *Out, rng *rand.Rand, thorough bool, _ []string) {
+	runStart = time.Now()
+	nstreams := 3
+	if thorough {
+		nstreams = 30
+	}
+	var lines []string
+	for i := 0; i < nstreams; i++ {
+		schema := genSchema(rng, 0, 3, false, 9)
+		docs := genDocs(rng, schema, 3+rng.Intn(8))
+		var meta []byte
+		if i%2 == 1 {
+			meta = docBytes([]*Node{i64n("host", int64(i))})
+		}
+		ctor := []string{"streaming", "streamingDynamic"}[i%2]
+		if i%3 == 2 {
+			// a schema change in the middle
+			docs = append(docs, genDocs(rng, genSchema(rng, 0, 2, false, 9), 2)...)
+			ctor = "streamingDynamic"
+		}
+		stream := collect(ctor, 1+rng.Intn(3), meta, docs)
+		if len(stream) > 4096 {
+			continue
+		}
+		tds := topDocs(stream)
+		ctx, cancel := context.WithCancel(context.Background())
+		base := observeChunks(ctx, stream)
+		cancel()
+		bound := map[int]bool{0: true}
+		for _, td := range tds {
+			bound[td.off+td.l] = true
+		}
+		for k := 0; k <= len(stream); k++ {
+			nb := 0
+			for _, td := range tds {
+				if td.off+td.l <= k && td.payload != nil {
+					nb++
+				}
+			}
+			good := "goodtables=" + strings.Join(base.tables[:nb], "|")
+			ex := "malformed "
+			if bound[k] {
+				ex = "wellformed exact=" + fmt.Sprint(nb) + " "
+			}
+			lines = append(lines, fmt.Sprintf("read %s | %s | %s%s", hx(stream[:k]), inflateTable(stream[:k]), ex, good))
+		}
+	}
+	runIsolated(o, lines, 20*time.Second)
 }
